@@ -5,6 +5,7 @@
 import RosuModel.Model.Cmds.Frame
 import RosuModel.Model.Cmds.Codec
 import RosuModel.Model.Cmds.Sections
+import RosuModel.Model.Cmds.HitObj
 namespace Rosu
 
 def dispatch (toks : List String) : String :=
@@ -12,6 +13,7 @@ def dispatch (toks : List String) : String :=
     |>.orElse (fun _ => dispatchFrame toks)
     |>.orElse (fun _ => dispatchCodec toks)
     |>.orElse (fun _ => dispatchSections toks)
+    |>.orElse (fun _ => dispatchHitObj toks)
     ).getD "bad-request"
 
 end Rosu
